@@ -88,6 +88,9 @@ def parse_vspec(path):
             for kv in parts[1:]:
                 k, v = kv.split("=", 1)
                 tpl = tpl.replace("{{" + k + "}}", v.replace("~", " "))
+                tpl = re.sub(r"\{\{" + re.escape(k) + r"\|[^}]*\}\}", lambda m_: v.replace("~", " "), tpl)
+            # `{{name|default}}`: parameters with a default value
+            tpl = re.sub(r"\{\{\w+\|([^}]*)\}\}", lambda m_: m_.group(1), tpl)
             raw_lines += tpl.split("\n")
         else:
             raw_lines.append(raw)
